@@ -102,6 +102,9 @@ impl Check for CrashCheck {
     fn repeats(&self) -> usize {
         2
     }
+    fn max_shrink_iters(&self) -> u32 {
+        300
+    }
     fn parts(&self, tier: Tier) -> Vec<Part> {
         vec![Part { name: "crash", kind: PartKind::Random { cases: tier.pick(320, 5000), main: 90, ops: 3, oplen: 40, sched: 40 } }]
     }
